@@ -159,7 +159,17 @@ def run_async(su, body, td, c1, c2, ncl, d, timeout, stop_at, broken, suppress, 
     if complete == 0:
         modes = {"complete"}       # everything synchronous: done before any scheduled call
     executed = [k for _n, k in seq]
-    all_clean = all(k in CLEAN for k in executed)
+    # logged errors: log.err adds one; flush_logged_errors(ZeroDivisionError) removes every ZeroDivisionError logged so far
+    unflushed = []
+    for k in executed:
+        if k == 6:
+            unflushed.append("ZeroDivisionError")
+        elif k in (10, 11):
+            unflushed.append("ZeroDivisionError")
+            if k == 11:
+                unflushed.append("RuntimeError")
+            unflushed = [t for t in unflushed if t != "ZeroDivisionError"]
+    all_clean = all(k in CLEAN or k in (6, 11) for k in executed) and not unflushed
     ok_modes = []
     if "complete" in modes:
         want_success = all_clean
